@@ -153,6 +153,7 @@ func (c RawConfiguration) handleCorrectableCall(ctx context.Context, corr *Corre
 	if state.expectedReplies == 0 {
 		// no node was targeted (the per node function skipped all of them)
 		corr.set(resp, clevel, QuorumCallError{cause: Incomplete, errors: errs, replies: len(replies)}, true)
+		vEmit("CallEnd", 0, state.md.MessageID, "out", "incomplete", "nerr", len(errs), "nrep", len(replies), "level", clevel)
 		return
 	}
 
